@@ -390,6 +390,144 @@ impl Family for Deep {
     }
 }
 
+/// differentiation with respect to *every* variable (strict and the relaxed modes, first and
+/// second order) of texts in which an operator sits in a nested group that mentions only some of
+/// the variables; flat, uncompiled, deep and converted forms
+pub struct DiffAll {
+    pub val: bool,
+    pub texts: Vec<String>,
+}
+impl DiffAll {
+    pub fn new(val: bool, th: bool) -> Self {
+        let bins: Vec<&str> = if val {
+            let mut b = vec!["%", "&&", "<<", "==", "<", "min", "+", "*", "/", "^", "."];
+            if th {
+                b.extend(["||", ">>", "!=", ">=", "max", "-", "|", "&", "dot", "cross", "atan2"]);
+            }
+            b
+        } else {
+            vec!["atan2", "min", "max", "+", "*", "/", "^", "-"]
+        };
+        let mut texts = Vec::new();
+        for o in &bins {
+            let alpha = o.chars().all(|c| c.is_ascii_alphanumeric());
+            let call = |a: &str, b: &str| if alpha { format!("{o}({a},{b})") } else { format!("({a}{o}{b})") };
+            let inf = |a: &str, b: &str| format!("({a} {o} {b})");
+            for (a, b) in [("a", "b"), ("b", "z"), ("a", "2"), ("3", "b"), ("y", "z")] {
+                for g in [call(a, b), inf(a, b)] {
+                    texts.push(format!("{g}+z"));
+                    texts.push(format!("a*{g}-y"));
+                    texts.push(format!("sin({g})*z"));
+                    texts.push(format!("-({g})/c"));
+                    texts.push(format!("z-sin(-({g}))"));
+                    texts.push(format!("({g}+c)*({g}-z)"));
+                    if th {
+                        texts.push(format!("z^{g}"));
+                        texts.push(format!("{g}^z+c"));
+                        texts.push(format!("ln(c+{g})"));
+                        texts.push(format!("((({g})))*c+z"));
+                    }
+                }
+            }
+        }
+        if val {
+            for c in ["a%2==0", "(a>0)&&(b>0)", "c<a"] {
+                texts.push(format!("z*a if {c} else z+b"));
+                texts.push(format!("sin(-(z*a if {c} else z+b))"));
+                texts.push(format!("(a if {c} else b)*z"));
+            }
+        }
+        texts.sort();
+        texts.dedup();
+        DiffAll { val, texts }
+    }
+}
+fn diff_every_variable<E: Differentiate<'static, T> + Express<'static, T> + Clone, T: exmex::DiffDataType>(e: &E, vals: &[T], entry: &str, text: &str, acc: &mut Acc)
+where
+    <T as std::str::FromStr>::Err: std::fmt::Debug,
+{
+    let n = e.var_names().len();
+    for i in 0..=n {
+        step!(acc, entry, "partial(i)", text, e.clone().partial(i).map(|p| p.eval(vals).is_ok()).is_ok());
+        for (mode, mn) in [(exmex::MissingOpMode::PerOperand, "PerOperand"), (exmex::MissingOpMode::None, "None"), (exmex::MissingOpMode::Error, "Error")] {
+            step!(acc, entry, &format!("partial_relaxed(i,{mn})"), text, e.clone().partial_relaxed(i, mode).map(|p| p.eval(vals).is_ok()).is_ok());
+        }
+        step!(acc, entry, "partial_nth(i,2)", text, e.clone().partial_nth(i, 2).map(|p| p.eval(vals).is_ok()).is_ok());
+        for j in 0..n {
+            step!(acc, entry, "partial_iter([i,j])", text, e.clone().partial_iter([i, j].into_iter()).map(|p| p.eval(vals).is_ok()).is_ok());
+        }
+    }
+}
+impl Family for DiffAll {
+    fn name(&self) -> String {
+        format!("differentiation with respect to every variable ({})", if self.val { "val" } else { "f64" })
+    }
+    fn total(&self) -> u64 {
+        self.texts.len() as u64
+    }
+    fn run_case(&self, idx: u64, acc: &mut Acc) {
+        let text = self.texts[idx as usize].as_str();
+        // (expressions borrow nothing from the text after parsing, but the trait wants 'static)
+        let text: &'static str = crate::sym::intern(text);
+        acc.evaluations += 1;
+        acc.states += 1;
+        if self.val {
+            type VF = exmex::FlatExVal<i32, f64>;
+            let mk = |n: usize| -> Vec<Val<i32, f64>> { (0..n).map(|i| if i % 2 == 0 { Val::Float(0.5 + i as f64) } else { Val::Int(i as i32 + 2) }).collect() };
+            if let Some(Ok(e)) = step!(acc, "parse_val::<i32,f64>", "parse", text, exmex::parse_val::<i32, f64>(text)) {
+                acc.nontrivial += 1;
+                let vals = mk(e.var_names().len());
+                diff_every_variable(&e, &vals, "FlatExVal", text, acc);
+                if let Some(Ok(d)) = step!(acc, "FlatExVal", "to_deepex", text, e.clone().to_deepex()) {
+                    diff_every_variable(&d, &vals, "FlatExVal -> DeepEx", text, acc);
+                }
+            }
+            if let Some(Ok(e)) = step!(acc, "FlatExVal::parse_wo_compile", "parse", text, VF::parse_wo_compile(text)) {
+                let vals = mk(e.var_names().len());
+                diff_every_variable(&e, &vals, "FlatExVal::parse_wo_compile", text, acc);
+            }
+            if let Some(Ok(d)) = step!(acc, "DeepEx::<Val>::parse", "parse", text, VDeep::parse(text)) {
+                let vals = mk(d.var_names().len());
+                diff_every_variable(&d, &vals, "DeepEx::<Val>::parse", text, acc);
+                if let Some(Ok(f)) = step!(acc, "DeepEx::<Val>::parse", "from_deepex", text, VF::from_deepex(d.clone())) {
+                    diff_every_variable(&f, &vals, "DeepEx::<Val> -> FlatExVal", text, acc);
+                }
+            }
+        } else {
+            let mk = |n: usize| -> Vec<f64> { (0..n).map(|i| 0.5 + i as f64).collect() };
+            if let Some(Ok(e)) = step!(acc, "FlatEx::<f64>::parse", "parse", text, FlatEx::<f64>::parse(text)) {
+                acc.nontrivial += 1;
+                let vals = mk(e.var_names().len());
+                diff_every_variable(&e, &vals, "FlatEx::<f64>", text, acc);
+                if let Some(Ok(d)) = step!(acc, "FlatEx::<f64>", "to_deepex", text, e.clone().to_deepex()) {
+                    diff_every_variable(&d, &vals, "FlatEx::<f64> -> DeepEx", text, acc);
+                }
+            }
+            if let Some(Ok(e)) = step!(acc, "FlatEx::<f64>::parse_wo_compile", "parse", text, FlatEx::<f64>::parse_wo_compile(text)) {
+                let vals = mk(e.var_names().len());
+                diff_every_variable(&e, &vals, "FlatEx::<f64>::parse_wo_compile", text, acc);
+            }
+            if let Some(Ok(d)) = step!(acc, "DeepEx::<f64>::parse", "parse", text, DeepEx::<f64>::parse(text)) {
+                let vals = mk(d.var_names().len());
+                diff_every_variable(&d, &vals, "DeepEx::<f64>::parse", text, acc);
+                if let Some(Ok(f)) = step!(acc, "DeepEx::<f64>::parse", "from_deepex", text, FlatEx::<f64>::from_deepex(d.clone())) {
+                    diff_every_variable(&f, &vals, "DeepEx::<f64> -> FlatEx", text, acc);
+                }
+            }
+            if let Some(Ok(d)) = step!(acc, "DeepEx::<f32>::parse", "parse", text, DeepEx::<f32>::parse(text)) {
+                let vals: Vec<f32> = (0..d.var_names().len()).map(|i| 0.5 + i as f32).collect();
+                diff_every_variable(&d, &vals, "DeepEx::<f32>::parse", text, acc);
+            }
+        }
+        if idx % 37 == 0 {
+            acc.sample(json!({"family": "differentiate-every-variable", "text": text}));
+        }
+    }
+    fn describe(&self, idx: u64) -> String {
+        format!("{:?}", self.texts[idx as usize])
+    }
+}
+
 // ---------------------------------------------------------------------------------------------
 
 /// every unary operator of the value table on boundary integers / floats, and the integer
@@ -530,6 +668,8 @@ pub fn families(tier: Tier) -> Vec<Box<dyn Family>> {
     v.push(Box::new(Deep { val: false, depths: depths.clone() }));
     v.push(Box::new(Deep { val: true, depths }));
     v.push(Box::new(ValBoundary::new(th)));
+    v.push(Box::new(DiffAll::new(false, th)));
+    v.push(Box::new(DiffAll::new(true, th)));
     v
 }
 
@@ -552,7 +692,7 @@ pub fn replay_text(case: &serde_json::Value) -> i32 {
 
 pub fn run(tier: Tier) -> i32 {
     let mut rep = Report::new("C06", tier);
-    rep.rule = "all token strings up to the length bound over alphabets covering every token class (blank-separated and concatenated), all single and double token edits of well-formed texts, deterministic families with nesting depth 1..100 and up to 1000 tokens; every parsing entry point (flat, uncompiled, deep, eval_str, value-typed, statement lines, serde) and, on success, the follow-up calls; executed in journaled worker subprocesses; distinct = texts; non-trivial = texts some parser accepts".into();
+    rep.rule = "all token strings up to the length bound over alphabets covering every token class (blank-separated and concatenated), all single and double token edits of well-formed texts, deterministic families with nesting depth 1..100 and up to 1000 tokens; families of texts with an operator inside a nested group over some of the variables, differentiated with respect to every variable (strict, relaxed modes, second order, mixed) in every form; every parsing entry point (flat, uncompiled, deep, eval_str, value-typed, statement lines, serde) and, on success, the follow-up calls; executed in journaled worker subprocesses; distinct = texts; non-trivial = texts some parser accepts".into();
     rep.assumptions = vec!["panics are caught in-process; aborts, stack overflows and hangs are attributed by bisection and confirmed in a fresh process; worker main threads run with the default 8 MiB stack".into()];
     crate::sweep::parent("C06", tier, families, &mut rep);
     crate::derived::run_derived(&mut rep, "C06", crate::derived::Focus::Crash, tier.thorough());
